@@ -24,7 +24,12 @@ RULE = ("loop configuration (socket handle attached or bare loop; every optional
         "(poll/select/epoll_wait re-polled with timeout 0); every trace replayed on the extracted model; "
         "non-trivial = another thread's operation falls between a poll return and the loop's next poll/exit test, "
         "or an exit is issued before run() has recorded its thread id, or a registration fails, or a hand-over "
-        "arrives after the exit callback; distinct = distinct trace text")
+        "arrives after the exit callback, or a registered context becomes ready (script ops s = muggle_socket_ctx_shutdown, "
+        "d = peer data, c = peer close), or an operation is issued from inside the user's wake / timer callback "
+        "(cbw / cbt scripts), or the timer callback runs (tmo 1 = timer interval 0); families: io-* (contexts ready "
+        "while wake-ups, hand-overs and the exit race with the back-end's passes; shutdown and exit in the same "
+        "iteration) and del-* (the owner deletes the loop right after run() returns while the exiting thread is still "
+        "inside muggle_evloop_exit); distinct = distinct trace text")
 TRUSTED_BASE = [
     "modelled, not verified: kernel semantics of eventfd (counter; read resets, write adds), select/poll (level-"
     "triggered) and epoll with EPOLLET (ready-list entry set by EPOLL_CTL_ADD-when-readable and by every write, "
@@ -47,7 +52,13 @@ ASSUMPTIONS = [
     "the evloop object outlives every muggle_evloop_exit / wakeup / hand-over call (callers join before delete)",
     "contexts handed over after the exit callback has drained the queue stay queued (owner's responsibility): "
     "handover_once covers every context enqueued before the exit callback takes the handle's mutex",
-    "peers of handed-over sockets are silent in the scenarios: read/close dispatch belongs to C13/C15",
+    "peers of handed-over sockets are silent unless a script operation d / c makes them send one byte / close; a context "
+    "becomes ready only through s / d / c; delivery of the bytes themselves belongs to C13/C15",
+    "del 1 (loop deleted by its owner as soon as run() has returned) is generated only for the usage under which that is "
+    "safe in the code as written: the exit request is the only operation that writes the signal, issued by a thread other "
+    "than the creating thread unless the creating thread runs the loop; with any other wake-up / hand-over pending the "
+    "loop may return - and be deleted - before the requester's own wake-up write (inherent to the WAKE/EXIT two-step; the "
+    "general rule stays: the loop object outlives every call on it)",
     "API hazard (observed by the C15 driver, consistent with the model: callbacks run inside on_wake's locked segment): "
     "calling muggle_socket_evloop_add_ctx from inside cb_add_ctx (or any callback invoked by on_wake's queue loop) "
     "self-deadlocks, because on_wake holds handle->mtx around the callback; callbacks must not hand contexts over - "
@@ -56,6 +67,18 @@ ASSUMPTIONS = [
     "repairs applied",
 ]
 EVIDENCE_NOTES = [
+    "round 5: seeded change C14-9 (on_clear skips contexts flagged CLOSED) was missed because no context was ever flagged: "
+    "the model, both drivers and the generator now have contexts that are shut down / receive data / lose their peer from "
+    "script operations of any thread and from the user's wake and timer callbacks (which may also wake, hand over and ask "
+    "for the exit from inside the loop), the back-ends' dispatch of ready contexts (select walk, poll slots with the n "
+    "counter and the swap removal, epoll batch with the signal at any position), timer interval 0 and deletion of the loop "
+    "right after run() returns; theorems clear_pass_releases_flagged_contexts and "
+    "shutdown_then_exit_before_dispatch_is_cleared; all invariants re-proved over the extended step function",
+    "NOT re-proved over the extended model (left unfinished in this round): the two liveness theorems under fair schedules "
+    "(exit_returns_fair, wake_served_fair) that earlier rounds had; the safety invariants, the accounting theorems and the "
+    "variant (rank strictly decreasing on the way out, incl. callback scripts, close dispatches, timer callback) hold in "
+    "full; a theorem 'no library call on the loop after its deletion' is not mechanised either: the model counts such "
+    "calls (g_uaf) and the monitor checks the traces of the del-* family",
     "round 3: seeded change C14-5 (poll back-end: WAKE->EXIT promotion skipped when cb_wake is NULL) was missed because "
     "every scenario installed every callback; the configuration space now covers each optional callback NULL/installed "
     "and bare loops (corpus matrix cbm-* of 336 cases + generator), the model's promotion step is independent of the "
@@ -125,15 +148,26 @@ def _cb_variants(all_flags):
     return v
 
 
-def _mk(name, be, loopthr, hints, scripts, sched, budget=None, cb=None):
+def _mk(name, be, loopthr, hints, scripts, sched, budget=None, cb=None, cbw=None, cbt=None, tmo=False, dele=False):
     """cb = None (handle attached, every callback installed: the default of both drivers) or
-    (mode, flags, nctx)"""
+    (mode, flags, nctx); cbw / cbt = scripts of the successive invocations of the user's wake / timer
+    callback; tmo = timer interval 0; dele = the owner deletes the loop right after run() returns"""
     lines = ["loop %s %d %d" % (be, loopthr, hints)] + ["thr %s" % (s or "-") for s in scripts]
     if cb:
         mode, flags, nctx = cb
         if mode == "bare":
-            lines = ["thr " + ln[4:].replace("h", "w") if ln.startswith("thr ") else ln for ln in lines]
+            tr = str.maketrans("hsdc", "wwww")
+            lines = ["thr " + ln[4:].translate(tr) if ln.startswith("thr ") else ln for ln in lines]
+            cbw = cbt = None
         lines.append("cb %s %s %d" % (mode, flags or "-", nctx))
+    if cbw:
+        lines.append("cbw " + " ".join(x or "-" for x in cbw))
+    if cbt:
+        lines.append("cbt " + " ".join(x or "-" for x in cbt))
+    if tmo:
+        lines.append("tmo 1")
+    if dele:
+        lines.append("del 1")
     if budget:
         lines.append("budget %d" % budget)
     lines.append("sched " + sched)
@@ -192,9 +226,9 @@ def _builtin_corpus():
     return cs
 
 
-def _rand_script(rng, maxlen, with_x, allow_h=True):
+def _rand_script(rng, maxlen, with_x, allow_h=True, alphabet=None):
     n = rng.range(0, maxlen)
-    ops = [rng.choice("wh" if allow_h else "w") for _ in range(n)]
+    ops = [rng.choice(alphabet or ("wh" if allow_h else "w")) for _ in range(n)]
     if with_x:
         ops.insert(rng.range(0, len(ops)), "x")
     return "".join(ops)
@@ -232,20 +266,141 @@ def _gen_one(rng, name, be):
     return _mk(name, be, loopthr, hints, scripts, sched, cb=(mode, fl, nctx))
 
 
+def _gen_shut(rng, name, be):
+    """I/O family: contexts are handed over, registered by the wake callback and then become ready -
+    shut down (s: flag CLOSED set outside their own dispatch + hang-up), data from the peer (d), peer
+    closed (c) - by a script operation of any thread or by the user's wake / timer callback on the
+    loop thread, which may also wake, hand over and exit from inside the loop; optionally with timer
+    interval 0 (every iteration, ready or not, ends with the timer callback and the exit test).
+    Wake-ups, hand-overs and the exit request race with the back-end's passes: the flag may be seen
+    by the back-end (close dispatch: cb_msg / cb_close / release) or only by the clear pass after the
+    exit test (shutdown and exit in the same iteration)"""
+    k = rng.range(1, 3)
+    loopthr = rng.choice([0, 1, 1])
+    n = 1 + k if loopthr == 0 else max(2, 1 + k)
+    xthr = rng.below(n)
+    shape = rng.below(8)
+    io = rng.choice(["s", "s", "sd", "sdc", "dc", "d"])
+    scripts = []
+    for t in range(n):
+        if shape == 0:
+            # hand-overs first, then I/O / wake-ups, exit somewhere
+            body = "h" * rng.range(1, 2) + "".join(rng.choice(io + "w" + io + "h") for _ in range(rng.range(0, 3)))
+            if t == loopthr and rng.chance(1, 2):
+                body = rng.choice(["", "h", "hh"])
+            if t == xthr:
+                pos = rng.range(0, len(body))
+                body = body[:pos] + "x" + body[pos:]
+        elif shape == 1:
+            # the exiting thread makes a context ready right before it asks for the exit
+            body = _rand_script(rng, 3, False, alphabet="hh" + io + "w")
+            if t == xthr:
+                e = rng.choice(io)
+                body = "h" * rng.range(0, 2) + rng.choice([e + "x", e + e + "x", e + "wx", e + "x", "x" + e])
+        elif shape in (6, 7):
+            # I/O storm while the exit request is between its store and its wake-up write: passes
+            # that were not caused by the exit's wake-up run their exit test with WAKE pending
+            if t == xthr:
+                body = rng.choice(["x", "x", "hx", "dx"])
+            else:
+                body = "h" + "".join(rng.choice(io + "d") for _ in range(rng.range(2, 5)))
+        elif shape in (2, 3):
+            # I/O and exit from the callbacks: scripts only hand over, wake and (maybe) exit
+            body = _rand_script(rng, 3, t == xthr and shape == 2, alphabet="hhw")
+            if "h" not in body and t != loopthr and rng.chance(1, 2):
+                body = "h" + body
+        else:
+            body = _rand_script(rng, 4, t == xthr, alphabet="hh" + io + io + "w")
+        scripts.append(body[:8])
+    tmo = rng.chance(1, 3)
+    cbw = cbt = None
+
+    def cbscript(with_x):
+        ops = [rng.choice(io + io + "wh") for _ in range(rng.range(0, 2))]
+        if with_x:
+            ops.insert(rng.range(0, len(ops)), "x")
+        return "".join(ops)
+    if shape in (2, 3) or rng.chance(1, 3):
+        if tmo and rng.chance(1, 2):
+            cbt = [cbscript(False) for _ in range(rng.range(1, 4))]
+            if shape == 3:
+                cbt.append(cbscript(True))      # the timer callback asks for the exit
+            else:
+                cbw = [cbscript(False) for _ in range(rng.range(0, 2))]
+        else:
+            cbw = [cbscript(False) for _ in range(rng.range(1, 3))]
+            if shape == 3:
+                cbw[rng.below(len(cbw))] = cbscript(True)       # the wake callback asks for the exit
+    if shape == 3:
+        # the exit comes from a callback; make sure some thread wakes the loop and keep a script
+        # exit as a back-stop so that the scenario terminates whatever the callback count
+        scripts[xthr] = (scripts[xthr] + "wx")[:8]
+    hints = 8
+    if be == "poll" and rng.chance(1, 4):
+        hints = rng.range(1, 3)
+    sched = "rand %d %d 0 0" % (rng.below(1 << 30), rng.choice([20, 50, 80]))
+    r = rng.below(6)
+    if r < 3:
+        fl = HANDLE_FLAGS
+    elif r == 3:
+        fl = rng.choice(_cb_variants(HANDLE_FLAGS)[2:2 + len(HANDLE_FLAGS)])     # one callback NULL
+    elif r == 4:
+        fl = "".join(ch for ch in HANDLE_FLAGS if rng.chance(2, 3))
+    else:
+        fl = "wt"
+    return _mk(name, be, loopthr, hints, scripts, sched, cb=("handle", fl, 0), cbw=cbw, cbt=cbt, tmo=tmo)
+
+
+def _gen_del(rng, name, be):
+    """loop-lifetime family: the owner (the loop thread) deletes the handle and the loop as soon as
+    muggle_evloop_run has returned while the thread that asked for the exit may still be inside
+    muggle_evloop_exit (anywhere between its store to to_exit and the end of its wake-up write).
+    Documented usage for which this is safe: the exit request is the only operation that writes the
+    loop's signal (no other wake-up / hand-over, which could let the loop see the request and return
+    before the requester's own write), issued by a thread other than the creating thread unless the
+    creating thread runs the loop itself.  With timer interval 0 the loop runs its exit test in every
+    iteration, woken or not: the two-step WAKE -> EXIT protocol is what keeps it from returning before
+    the requester's write."""
+    k = rng.range(1, 3)
+    loopthr = rng.choice([0, 1, 1, 2 if k >= 2 else 1])
+    n = max(1 + k, loopthr + 1)
+    cands = [t for t in range(n) if t == loopthr or t != 0]
+    xthr = rng.choice(cands)
+    scripts = ["x" if t == xthr else "" for t in range(n)]
+    tmo = rng.chance(2, 3)
+    mode = "bare" if rng.chance(1, 3) else "handle"
+    allf = BARE_FLAGS if mode == "bare" else HANDLE_FLAGS
+    fl = allf if rng.chance(1, 2) else "".join(ch for ch in allf if rng.chance(2, 3))
+    if tmo and rng.chance(3, 4) and "t" not in fl:
+        fl += "t"
+    nctx = rng.range(0, 2) if mode == "bare" else 0
+    sched = "rand %d %d 0 0" % (rng.below(1 << 30), rng.choice([20, 50, 80]))
+    return _mk(name, be, loopthr, 8, scripts, sched, cb=(mode, fl, nctx), tmo=tmo, dele=True)
+
+
 def generate(rng, tier):
     cases = []
     per = 350 if tier == "quick" else 20000
+    pers = 250 if tier == "quick" else 15000
     for be in ("select", "poll", "epoll"):
         for i in range(per):
             cases.append(_gen_one(rng, "%s-%d" % (be, i), be))
+        for i in range(pers):
+            cases.append(_gen_shut(rng, "io-%s-%d" % (be, i), be))
+        for i in range(pers // 5):
+            cases.append(_gen_del(rng, "del-%s-%d" % (be, i), be))
     return cases
 
 
 def search(rng, diverging, tier):
     out = []
     for be in ("select", "poll", "epoll"):
-        for i in range(1500):
+        for i in range(1000):
             out.append(_gen_one(rng, "search-%s-%d" % (be, i), be))
+        for i in range(1000):
+            out.append(_gen_shut(rng, "search-io-%s-%d" % (be, i), be))
+        for i in range(300):
+            out.append(_gen_del(rng, "search-del-%s-%d" % (be, i), be))
     return out
 
 
@@ -276,6 +431,8 @@ def monitor(case, lines):
             mode, flags = w[1], ("" if w[2] == "-" else w[2])
             nctx = int(w[3]) if len(w) > 3 and mode == "bare" else 0
     bare = (mode == "bare")
+    tmo = any(ln.split() == ["tmo", "1"] for ln in case.lines)
+    dele = any(ln.split() == ["del", "1"] for ln in case.lines)
 
     def has(ch):
         return ch in flags
@@ -291,6 +448,10 @@ def monitor(case, lines):
     returned = None
     hand = {}              # id -> dict
     pending_h = {}         # thread -> id waiting for its hand-over lock
+    shut = {}              # id -> line of its shutdown (flag CLOSED set outside its own dispatch)
+    fed = {}               # id -> line at which its peer last sent data
+    pclosed = {}           # id -> line at which its peer closed
+    closed = {}            # id -> line of its close callback
     for i, ln in enumerate(lines):
         w = ln.split()
         if not w:
@@ -303,6 +464,9 @@ def monitor(case, lines):
             a, b = int(w[5]), int(w[6])
             if returned is not None and t == loopthr:
                 return "line %d: loop thread operation %s after run() returned" % (i, op)
+            if returned is not None and dele and op in ("ewrite", "mlock", "munlock"):
+                return ("line %d: thread %s performs %s on the loop after the owner deleted it (run() returned at line %d)"
+                        % (i, t, op, returned))
             if op == "ewrite":
                 if b != 1:
                     return "line %d: wake-up write failed" % i
@@ -350,13 +514,38 @@ def monitor(case, lines):
                 pending_h[t] = cid
             elif what == "op" and w[3] == "x":
                 exit_pending[t] = w[4]
+            elif what == "op" and w[3] in ("s", "d", "c"):
+                cid = int(w[4])
+                if bare:
+                    return "line %d: socket context operation on a bare loop" % i
+                if cid >= 0:
+                    h = hand.get(cid)
+                    if h is None or h["free"] or cid in shut or (w[3] != "s" and cid in pclosed):
+                        return ("line %d: the harness picked context %d which is unknown / freed / already shut down / "
+                                "whose peer is closed" % (i, cid))
+                    {"s": shut, "d": fed, "c": pclosed}[w[3]][cid] = i
             elif what == "done":
                 if exit_pending.get(t) == w[3]:
                     del exit_pending[t]
                     if exit_done is None:
                         exit_done = i
-            elif what in ("read", "msg", "timer") or (bare and what == "close"):
-                return "line %d: unexpected %s callback (peers are silent, no timeout is set)" % (i, what)
+            elif what == "read" or (bare and what in ("close", "msg")):
+                return "line %d: unexpected %s callback (the peers of a bare loop's contexts are silent)" % (i, what)
+            elif what == "timer":
+                if not tmo or not has("t") or t != loopthr:
+                    return "line %d: timer callback without a timer interval / not installed / not on the loop thread" % i
+                if returned is not None:
+                    return "line %d: timer callback after run() returned" % i
+            elif what == "msg":
+                cid = int(w[3])
+                h = hand.get(cid)
+                if not has("m") or t != loopthr:
+                    return "line %d: message callback that is not installed / not on the loop thread" % i
+                if h is None or not (cid in shut or cid in fed or cid in pclosed):
+                    return ("line %d: message callback for context %s whose peer is silent and open and which was not "
+                            "shut down" % (i, w[3]))
+                if h["free"] or h["rel"] or cid in closed:
+                    return "line %d: message callback touches context %d after its close / release / free" % (i, cid)
             elif what == "clear":
                 cid = int(w[3])
                 if not bare or not has("l") or t != loopthr:
@@ -400,7 +589,14 @@ def monitor(case, lines):
                     if h["free"] > 1:
                         return "line %d: context %d freed twice" % (i, cid)
                 elif what == "close":
-                    return "line %d: unexpected close callback for context %d (peers are silent)" % (i, cid)
+                    if not has("c"):
+                        return "line %d: close callback ran although it is not installed" % i
+                    if cid not in shut and cid not in pclosed:
+                        return ("line %d: unexpected close callback for context %d (it was not shut down and its peer "
+                                "has not closed)" % (i, cid))
+                    if cid in closed or h["rel"]:
+                        return "line %d: context %d closed twice / after its release" % (i, cid)
+                    closed[cid] = i
             elif what == "wake":
                 wake_notes += 1
                 if t != loopthr:
@@ -451,9 +647,10 @@ def monitor(case, lines):
                 return "context %d was handed over after the exit callback but was still processed" % cid
             continue
         if (has("r") and h["rel"] != 1) or h["free"] != 1:
-            return ("context %d (handed over at line %d, before the exit callback): registered %d time(s), released %d, "
+            return ("context %d (handed over at line %d, before the exit callback%s): registered %d time(s), released %d, "
                     "freed %d - must be released and freed exactly once by the time run() returns"
-                    % (cid, h["line"], h["reg"], h["rel"], h["free"]))
+                    % (cid, h["line"], ", shut down at line %d" % shut[cid] if cid in shut else "",
+                       h["reg"], h["rel"], h["free"]))
     if int(m.group(2)) != 0:
         return "allocation accounting: %s context(s) neither freed by the loop nor still queued after run()" % m.group(2)
     if int(m.group(3)) != late:
@@ -481,6 +678,12 @@ def nontrivial_key(case, lines):
             hit = True
         elif w[0] == "F" and not ln.endswith("late=0"):
             hit = True
+        elif w[0] == "R" and w[2] == "op" and w[3] in ("s", "d", "c") and w[4] != "-1":
+            hit = True
+        elif w[0] == "R" and w[1] == loopthr and w[2] == "op" and run_started:
+            hit = True          # an operation issued from inside a callback
+        elif w[0] == "R" and w[2] == "timer":
+            hit = True
     return hash("\n".join(lines)) if hit else None
 
 
@@ -491,7 +694,17 @@ def tally(dist, case, lines):
         "loop-thread-%s" % ("creator" if w[2] == "0" else "other"), 0) + 1
     dist["threads-%d" % sum(1 for ln in case.lines if ln.startswith("thr "))] = dist.get(
         "threads-%d" % sum(1 for ln in case.lines if ln.startswith("thr ")), 0) + 1
+    if any(l.split() == ["del", "1"] for l in case.lines):
+        dist["delete_after_return_cases"] = dist.get("delete_after_return_cases", 0) + 1
+    if any(l.split() == ["tmo", "1"] for l in case.lines):
+        dist["timer_interval_0_cases"] = dist.get("timer_interval_0_cases", 0) + 1
+    lt = w[2]
+    inloop = False
     for ln in lines:
+        if ln.startswith("E %s poll " % lt):
+            inloop = True
+        elif inloop and ln.startswith("R %s op " % lt):
+            dist["ops_from_callbacks"] = dist.get("ops_from_callbacks", 0) + 1
         if ln.startswith("E "):
             dist["events"] = dist.get("events", 0) + 1
             if " poll sig none 0 " in ln:
@@ -504,12 +717,22 @@ def tally(dist, case, lines):
             dist["handovers"] = dist.get("handovers", 0) + 1
         elif ln.startswith("R ") and " op x " in ln:
             dist["exit_requests"] = dist.get("exit_requests", 0) + 1
+        elif ln.startswith("R ") and (" op s " in ln or " op d " in ln or " op c " in ln) and not ln.endswith(" -1"):
+            k = {"s": "shutdowns", "d": "peer_data", "c": "peer_closes"}[ln.split()[3]]
+            dist[k] = dist.get(k, 0) + 1
+        elif ln.startswith("R ") and ln.endswith(" timer"):
+            dist["timer_callbacks"] = dist.get("timer_callbacks", 0) + 1
+        elif ln.startswith("R ") and " msg " in ln:
+            dist["message_callbacks"] = dist.get("message_callbacks", 0) + 1
+        elif ln.startswith("R ") and " close " in ln:
+            dist["close_dispatches"] = dist.get("close_dispatches", 0) + 1
         elif ln.startswith("F ") and not ln.endswith("late=0"):
             dist["late_handover_cases"] = dist.get("late_handover_cases", 0) + 1
 
 
 MANIFEST = {
-    "level_text": ("Coq theorems over an executable interleaving model (any number of threads, every schedule) of "
+    "level_text": ("(round 5: liveness under fair schedules not re-proved over the extended model, see evidence notes) "
+                   "Coq theorems over an executable interleaving model (any number of threads, every schedule) of "
                    "muggle_evloop_run / handle_wakeup / muggle_evloop_exit / wakeup and the socket handle's hand-over "
                    "queue: no wake-up request is lost (the loop never sleeps with an unserved request), every context "
                    "handed over is registered or released exactly once (including those queued at exit), and after an "
